@@ -16,7 +16,7 @@ RULE = (
     "with an in_place parameter (called with in_place=True). Arguments are synthesised from a registry keyed by parameter "
     "name, identically for both phases. Phase 1 calls the candidate on an unfrozen copy; if the structural snapshot (nodes, "
     "edges, members) changes, this (candidate, arguments) pair is a structural mutation. Phase 2 repeats the same call on a "
-    "frozen build of the same network and on subhypergraph(H): it must raise XGIError and leave the network unchanged. Also: "
+    "frozen build of the same network and on subhypergraph(H) - with the defaults or with drawn node / edge selections and keep_isolates (sub-networks, edge-less results included; mutation is then decided on an unfrozen copy of the result): it must raise XGIError and leave the network unchanged. Also: "
     "is_frozen is False before, True after freeze()/on subhypergraph results, False on copies; a copy of a frozen network "
     "equals it and accepts the mutation. non-trivial = phase 1 observed a structural change for the pair"
 )
@@ -68,8 +68,11 @@ CANDS = sorted(list(METHODS) + list(FUNCTIONS))
 def cases(draw, tier):
     key, cand = draw(st.sampled_from(CANDS))
     spec = draw(nets.net_spec(cls=key, max_edges=5, min_edges=1, allow_empty=False, with_attrs=True))
+    idx = st.one_of(st.none(), st.lists(st.integers(0, 9), max_size=6))
+    # arguments of subhypergraph: the whole network (defaults) or drawn selections (by position; may be empty, may select nothing that survives)
+    sub = draw(st.one_of(st.none(), st.fixed_dictionaries({"nodes": idx, "edges": idx, "keep_isolates": st.booleans()})))
     return {"cls": key, "cand": cand, "spec": spec, "picks": draw(st.lists(st.integers(0, 1000), min_size=8, max_size=8)),
-            "via": draw(st.sampled_from(["freeze", "freeze", "subhypergraph"]))}
+            "via": draw(st.sampled_from(["freeze", "freeze", "subhypergraph"])), "sub": sub}
 
 
 def strategy(tier):
@@ -267,13 +270,41 @@ def run_case(case, ctx):
     # ---- phase 2: frozen network
     if case["via"] == "subhypergraph":
         try:
-            F = xgi.subhypergraph(nets.build(case["spec"]))
+            src = nets.build(case["spec"])
+            sub = case.get("sub")
+            if sub is None:
+                F = xgi.subhypergraph(src)
+            else:
+                ns, es = list(src.nodes), list(src.edges)
+                sel_n = None if sub["nodes"] is None or not ns else [ns[i % len(ns)] for i in sub["nodes"]]
+                sel_e = None if sub["edges"] is None or not es else [es[i % len(es)] for i in sub["edges"]]
+                F = xgi.subhypergraph(src, nodes=sel_n, edges=sel_e, keep_isolates=sub["keep_isolates"])
+                ctx.event("subhypergraph-with-arguments" + (":edgeless" if F.num_edges == 0 else ""))
         except Exception:  # noqa: BLE001  (subhypergraph does not support this class/network: counted)
             ctx.event("subhypergraph-unavailable:" + key)
             F = None
         if F is not None and nets.structure(F) != before:
-            ctx.event("subhypergraph-differs")
-            F = None
+            # a proper sub-network: whether the pair mutates is decided on an unfrozen equal network (its copy, rebuilt if the copy is refused)
+            try:
+                U = F.copy()
+                if U.is_frozen:
+                    raise XGIError("copy is frozen")
+            except Exception:  # noqa: BLE001
+                ctx.event("subhypergraph-differs")
+                F = None
+            if F is not None:
+                before = nets.structure(U)
+                kwu = synth(U, key, name, sig, case["picks"])
+                if kwu is None:
+                    return
+                kw = kwu
+                try:
+                    call(U, key, cand, kwu, case["picks"])
+                    p1 = "returned"
+                except Exception:  # noqa: BLE001
+                    p1 = "raised"
+                mutates = nets.structure(U) != before
+                ctx.event("sub-" + ("mutator:" if mutates else "no-change:") + key + "." + name)
     else:
         F = nets.build(case["spec"])
         F.freeze()
